@@ -325,7 +325,7 @@ impl<'a> GeneratorState<'a> {
                         dasm_operand = format!("{},Y", variable);
                     }
                     cycles += 2;
-                    if v.memory == VariableMemory::Zeropage {
+                    if in_zeropage(v, off as i32) {
                         match mnemonic {
                             STX | LDX => {
                                 nb_bytes = 2;
@@ -351,7 +351,7 @@ impl<'a> GeneratorState<'a> {
                             ))
                         }
                         STX => {
-                            if v.memory != VariableMemory::Zeropage {
+                            if !in_zeropage(v, off as i32) {
                                 return Err(self.compiler_state.syntax_error("Can't use Y addressing on a non zeropage variable with X storage", pos));
                             }
                         }
@@ -367,7 +367,7 @@ impl<'a> GeneratorState<'a> {
                         } else {
                             dasm_operand = format!("({}),Y", variable);
                         }
-                        if v.memory != VariableMemory::Zeropage {
+                        if !in_zeropage(v, offset as i32) {
                             return Err(self.compiler_state.syntax_error(
                                 "Y indirect addressing works only on zeropage variables",
                                 pos,
@@ -398,7 +398,7 @@ impl<'a> GeneratorState<'a> {
                         dasm_operand = format!("{},Y", variable);
                     }
                     cycles += 2;
-                    if v.memory == VariableMemory::Zeropage {
+                    if in_zeropage(v, offset as i32) {
                         match mnemonic {
                             STX | LDX => {
                                 nb_bytes = 2;
@@ -424,7 +424,7 @@ impl<'a> GeneratorState<'a> {
                             ))
                         }
                         STX => {
-                            if v.memory != VariableMemory::Zeropage {
+                            if !in_zeropage(v, offset as i32) {
                                 return Err(self.compiler_state.syntax_error("Can't use Y addressing on a non zeropage variable with X storage", pos));
                             }
                         }
@@ -486,7 +486,7 @@ impl<'a> GeneratorState<'a> {
                         dasm_operand = format!("{},X", variable);
                     }
                     cycles += 2;
-                    if v.memory == VariableMemory::Zeropage {
+                    if in_zeropage(v, off as i32) {
                         nb_bytes = 2;
                     } else {
                         if mnemonic == STA {
@@ -507,7 +507,7 @@ impl<'a> GeneratorState<'a> {
                             ))
                         }
                         STY => {
-                            if v.memory != VariableMemory::Zeropage {
+                            if !in_zeropage(v, off as i32) {
                                 return Err(self.compiler_state.syntax_error("Can't use X addressing on a non zeropage variable with Y storage", pos));
                             }
                         }
